@@ -34,6 +34,10 @@ pub fn embeddings() -> Vec<(Vec<usize>, Vec<usize>)> {
     ]
 }
 
+fn intern_fresh(env: &BDDEnv<usize>, b: &BDD<usize>) -> B {
+    match b { BDD::True => env.mk_const(true), BDD::False => env.mk_const(false), BDD::Choice(t, v, f) => { let t = intern_fresh(env, t); let f = intern_fresh(env, f); env.mk_choice(t, *v, f) } }
+}
+
 pub fn c03(out: &mut dyn Write, tier: &str, rng: &mut Rng, st: &mut Stats) {
     // an environment obtained through `Default` must behave like one from `new()`
     {
@@ -52,6 +56,23 @@ pub fn c03(out: &mut dyn Write, tier: &str, rng: &mut Rng, st: &mut Stats) {
         }
         for s in [0usize, 3] { let r = denv.var(s); writeln!(out, "C03|var|{}|{}|", s, show(&r)).unwrap(); }
         for v in [false, true] { let r = denv.mk_const(v); writeln!(out, "C03|const|{}|{}|", v as u8, show(&r)).unwrap(); }
+    }
+    // a bare variable (and its negation) against every function of three variables, in both operand orders: shortcuts
+    // for "one operand is a single variable" meet an operand with the same top variable, an earlier and a later one
+    {
+        let env: BDDEnv<usize> = BDDEnv::new();
+        for v in 0..3usize {
+            for tt in 0..256u64 {
+                let f = intern_fresh(&env, &from_tt(tt, &[0, 1, 2]));
+                let lit = if tt % 2 == 0 { env.var(v) } else { env.not(env.var(v)) };
+                let op = BIN_OPS[((tt / 2) as usize + v) % BIN_OPS.len()];
+                for (a, b) in [(Rc::clone(&lit), Rc::clone(&f)), (Rc::clone(&f), Rc::clone(&lit))] {
+                    let r = bin(&env, op, Rc::clone(&a), Rc::clone(&b));
+                    writeln!(out, "C03|bin|{}|{}|{}|{}|{};{}", op, show(&a), show(&b), show(&r), show(&a), show(&b)).unwrap();
+                    st.hit("op.literal-against-function");
+                }
+            }
+        }
     }
     // an environment over NAMED symbols in which different symbols print alike (the same name with different ids) and
     // one symbol has several spellings: var and the connectives go by the id alone
